@@ -3,6 +3,7 @@ package main
 import (
 	"fmt"
 	"math/big"
+	"sort"
 	"strings"
 
 	"github.com/my-cloud/ruthenium/validatornode/application/verification"
@@ -354,4 +355,14 @@ func (m *ChainMonitor) CheckPool(pool []*ledger.Transaction, admitted map[string
 		}
 		seen[t.Id()] = true
 	}
+}
+
+// HitKeys: the monitor hits of this case so far, sorted, as "C02.unknown-output"
+func (m *ChainMonitor) HitKeys() []string {
+	var ks []string
+	for k := range m.hits {
+		ks = append(ks, strings.Replace(k, "|", ".", 1))
+	}
+	sort.Strings(ks)
+	return ks
 }
